@@ -64,6 +64,14 @@ def many_deme_worlds(tier, seed):
                         sprout={"kind": "composed", "L": 50, "gen": {"kind": "nbc", "factor": 0.3, "trunc": 1.0},
                                 "deme_chain": [{"kind": "farenough", "dist": 0.15, "ord": ordn}], "tree_chain": [{"kind": "skipsame"}, {"kind": "levellimit", "limit": 50}]},
                         scale="demes"))
+    # more than 64 children created by ONE sprouting round
+    out.append(dict(engines=["SEA", "DE"], gens=1, pop=150, box="B_sym", obj="twofunnel", maximize=False, Mh=2, seed=s, hib=True, lsc=[None, {"kind": "metaepoch", "m": 2}],
+                    sprout={"kind": "composed", "L": 140, "gen": {"kind": "nbc", "factor": 0.05, "trunc": 1.0}, "deme_chain": [], "tree_chain": [{"kind": "levellimit", "limit": 140}]},
+                    scale="demes"))
+    # ... and by dozens of different parents in one round (three levels)
+    out.append(dict(engines=["LHS", "DE", "SEA"], gens=1, pop=6, lhs_pop=80, box="B_sym", obj="twofunnel", maximize=True, Mh=3, seed=s + 1, hib=True, lsc=[None, None, {"kind": "metaepoch", "m": 2}],
+                    sprout={"kind": "composed", "L": 250, "gen": {"kind": "nbc", "factor": 0.05, "trunc": 1.0}, "deme_chain": [], "tree_chain": [{"kind": "levellimit", "limit": 250}]},
+                    scale="demes"))
     # one new child per metaepoch for a long time: ids with three digits, more than 64 / 256 seeds sprouted on one level
     for k, eng in enumerate([("LHS", "DE"), ("SOB", "SEA", "SHADE")]):
         out.append(dict(engines=list(eng), gens=1, Mh=(70 if tier == "quick" else 270) if k == 0 else (40 if tier == "quick" else 90), hib=bool(k), seed=s + k, choices="",
@@ -88,7 +96,8 @@ def long_metaepoch_worlds(tier, seed):
 def lifecycle_scale_worlds(tier, seed):
     """The scale worlds that the lifecycle checks (C05-C08, C10, C18, C20) run: (mode, desc) pairs as in runlib.lifecycle_descs."""
     out = []
-    for d in many_deme_worlds(tier, seed) + long_history_worlds(tier, seed)[:2] + big_population_worlds(tier, seed, engines=[("SEA", "DE"), ("SHADE", "SEA"), ("GA", "CMAf")]):
+    for d in (many_deme_worlds(tier, seed) + long_history_worlds(tier, seed)[:2] + big_population_worlds(tier, seed, engines=[("SEA", "DE"), ("SHADE", "SEA"), ("GA", "CMAf")])
+              + [dict(w, use_cache=False) for w in high_dimension_worlds(tier, seed)[:3]]):
         out.append(("bounded", dict(d, choices="", gsc=d.get("gsc", {"kind": "horizon"}))))
     for d in long_metaepoch_worlds(tier, seed):
         out.append(("bounded", dict(d, gsc={"kind": "horizon"}, max_bound=1)))
